@@ -28,7 +28,8 @@ import impl_monitor as IM  # noqa: E402
 VERIF = os.path.dirname(os.path.dirname(os.path.dirname(os.path.abspath(__file__))))
 
 LEAN_MODULES = ["KmipModel.Props.C18"]
-RULE = ("(since round 6 also files RESTORED with their old modification time after a removal - moved away and back - "
+RULE = ("(since round 7 also policies DEFINED WITH AN EMPTY DEFINITION - {\"preset\": {}}, {\"groups\": {}}, {} - shadowing "
+        "and shadowed, as their own 9-letter family to depth 5/6 and in the random histories; since round 6 also files RESTORED with their old modification time after a removal - moved away and back - "
         "as their own 9-letter family to depth 5/6 and in the random histories) "
         "histories: ALL sequences over the event alphabet {write S (add/edit/repair; S = set of policy names the "
         "file defines, every write carries fresh definitions), break (bad JSON / unknown operation, section, "
@@ -322,7 +323,14 @@ ALPHA_CRASH = (
 ALPHA_RESTORE = (
     [W(0, "p"), W(0, "pq"), L(0, "rm"), L(0, "rst"), L(0, "tch")] +
     [W(1, "p"), W(1, "q"), L(1, "rm"), L(1, "rst")])
-ALPHABETS = {"full": ALPHA_FULL, "deep": ALPHA_DEEP, "pair": ALPHA_PAIR, "crash": ALPHA_CRASH, "restore": ALPHA_RESTORE}
+# "we" = the file DEFINES the policies with an EMPTY definition ({"p": {"preset": {}}}, {"p": {"groups": {}}}, {"p": {}}):
+# a valid document whose policy is present in the store with a falsy value
+EMPTY_BODIES = [{"preset": {}}, {"groups": {}}, {}]
+ALPHA_EMPTY = (
+    [W(0, "p"), (0, ("we", ("p",))), L(0, "rm")] +
+    [W(1, "p"), (1, ("we", ("p",))), (1, ("we", ("p", "q"))), L(1, "rm")] +
+    [W(2, "pq"), L(2, "rm")])
+ALPHABETS = {"empty": ALPHA_EMPTY, "full": ALPHA_FULL, "deep": ALPHA_DEEP, "pair": ALPHA_PAIR, "crash": ALPHA_CRASH, "restore": ALPHA_RESTORE}
 
 
 def realize(letters, eps):
@@ -358,6 +366,8 @@ def realize(letters, eps):
                 ver[f] = v + 1
                 if act[0] == "w":
                     text = write_text(fidx, [c if c != "d" else "default" for c in act[1]], v)
+                elif act[0] == "we":
+                    text = json.dumps({c: EMPTY_BODIES[(n + fidx + k) % 3] for k, c in enumerate(act[1])})
                 elif act[0] == "brk":
                     text = BROKEN[(n + fidx) % len(BROKEN)]
                 else:
@@ -406,7 +416,8 @@ def random_history(rng):
                     names = rng.sample(names_pool, k)
                     if rng.random() < 0.15:
                         names.append("default")
-                    doc = {n: pol_body(v * 16 + fidx * 4 + NAMES.index(n)) for n in names}
+                    doc = {n: (pol_body(v * 16 + fidx * 4 + NAMES.index(n)) if rng.random() > 0.12 else
+                               rng.choice(EMPTY_BODIES)) for n in names}
                     if rng.random() < 0.1:
                         doc["public"] = pol_body(v * 16 + fidx * 4 + 3)
                     if rng.random() < 0.1:
@@ -908,6 +919,8 @@ def plan(ctx, with_model=True, more=1):
         tasks += family_tasks("two events per scan, depth 2, 21 letters", "full", 2, 2, 128, with_model)
         tasks += family_tasks("two events per scan, depth 3, 10 letters", "deep", 2, 3, 100, with_model)
     tasks += family_tasks("files restored with their old modification time, depth %d, 9 letters" % (5 if quick else 6), "restore", 1,
+                          5 if quick else 6, 16 if quick else 64, with_model)
+    tasks += family_tasks("policies defined with an empty definition, depth %d, 9 letters" % (5 if quick else 6), "empty", 1,
                           5 if quick else 6, 16 if quick else 64, with_model)
     tasks += family_tasks("with wrong-typed documents (former F-C18-b), depth %d, 8 letters" % (4 if quick else 5), "crash", 1,
                           4 if quick else 5, 16 if quick else 64, with_model)
